@@ -49,6 +49,7 @@ class ValueGen:
         self.restarts_left = cfg.get("restarts", 0)
         self.restart_at = cfg.get("restart_at", [])
         self.dyn_cats = []  # [(category, qt)] requested by the registrar client during the run
+        self.swept = False
         self.dyn_units = cfg.get("dyn_units", [])  # units a plugin registers at some point of the run
         self.reg_forms = cfg.get("reg_forms")
         self.legacy = W.legacy_spellings(info) if cfg["world"] == "W-POSC" else []
@@ -132,6 +133,29 @@ class ValueGen:
             o["peer"] = rng.choice([1, 1, 2, 2, 3, 4])
             o["f"] = "F2.peer_exception"
         return o
+
+    def sweep_probes(self, op):
+        """Requests issued after an interrupted registration, about the names it mentions.  Their
+        oracles decide from what the database reports at that moment what the answer has to be."""
+        probes = []
+        name = op["a"][0]
+        if op["k"].startswith("reg.AddCategory"):
+            c = name
+            probes.append(self.op("mk.q.nonec", "units", "ObtainQuantity", [None, c], x=[{"o": "q_request", "p": "C07", "id": "C07.request_honoured", "form": "nonec"}]))
+            for b in self.basis[:3]:
+                un = b[1][0]
+                probes.append(self.op("mk.Scalar.vuc", "Scalar", "()", [1.0, un, c], x=[{"o": "reject", "p": "C05", "id": "C05.loud", "why": "catunit", "category": c, "unit": un}]))
+                probes.append(self.op("mk.q.uc", "units", "ObtainQuantity", [un, c], x=[{"o": "reject", "p": "C05", "id": "C05.loud", "why": "catunit", "category": c, "unit": un}, {"o": "q_request", "p": "C07", "id": "C07.request_honoured", "form": "uc"}]))
+        else:
+            sym = op["a"][2]
+            qt = op["a"][0]
+            probes.append(self.op("mk.q.u", "units", "ObtainQuantity", [sym], x=[{"o": "q_request", "p": "C07", "id": "C07.request_honoured", "form": "u"}]))
+            for b in self.basis[:3]:
+                c = b[2][0]
+                probes.append(self.op("mk.Scalar.vuc", "Scalar", "()", [1.0, sym, c], x=[{"o": "reject", "p": "C05", "id": "C05.loud", "why": "catunit", "category": c, "unit": sym}]))
+        for p in probes:
+            p["c"] = "inspector"
+        return probes
 
     def peer_units_live(self):
         db = _db_now()
@@ -303,6 +327,32 @@ class ValueGen:
                     again = {k: v for k, v in op.items() if k not in ("intr", "f", "i")}
                     again["c"] = client
                     self.plan = [again]
+            elif (
+                op["k"] in ("reg.AddCategory.override", "reg.AddCategory.retype", "reg.AddUnit.new", "reg.AddUnit.new_callable")
+                and self.cfg.get("sweep_rate", 0) > 0
+                and not self.swept
+                and rng.random() < self.cfg["sweep_rate"]
+            ):
+                # interrupt sweep: every line position of this registration is tried in a forked
+                # grandchild, followed by probe requests about the names it mentions
+                self.swept = True
+                op["sweep"] = True
+                op["probes"] = self.sweep_probes(op)
+            elif (
+                op["k"] in ("reg.AddCategory.override", "reg.AddCategory.retype", "reg.AddUnit.new", "reg.AddCategory.new", "reg.AddCategory.copy")
+                and self.cfg.get("intr_reg_rate", 0) > 0
+                and rng.random() < self.cfg["intr_reg_rate"]
+            ):
+                # F7 inside a registration (Ctrl-C while a plugin loads).  Nothing is demanded about
+                # the registration itself (it may have happened or not); what the database reports
+                # afterwards is what every later answer must agree with.
+                op["intr"] = rng.randint(1, 90)
+                op["f"] = "F7.interrupt"
+                self.restart_at = []  # durable state of a half-loaded plugin is not modelled
+                self.requests = {}
+                if op["k"].startswith("reg.AddCategory") and not getattr(self, "plan", None):
+                    nonec = self.op("mk.q.nonec", "units", "ObtainQuantity", [None, op["a"][0]], x=[{"o": "q_request", "p": "C07", "id": "C07.request_honoured", "form": "nonec"}])
+                    self.plan = [dict(nonec, c="inspector")]
             elif (
                 (op.get("f") or "").startswith("F1.")
                 and op["k"].startswith("flt.incompatible.")
